@@ -302,6 +302,15 @@ def gen_consts():
     SL("parserKnownTokens", const_eval(dd.assign("PARSER_KNOWN_TOKENS")), "dictionary.py PARSER_KNOWN_TOKENS")
     SL("alwaysKeepTokens", const_eval(dd.assign("ALWAYS_KEEP_TOKENS"), {"PARSER_HARDCODED_TOKENS": hard}), "dictionary.py ALWAYS_KEEP_TOKENS")
     SL("knownWordTokens", const_eval(dd.assign("KNOWN_WORD_TOKENS")), "dictionary.py KNOWN_WORD_TOKENS")
+    atc = dd.func("Dictionary._add_to_cache")
+    skips = False
+    for n in ast.walk(atc):
+        if isinstance(n, ast.For):
+            for c in ast.walk(n):
+                if isinstance(c, ast.Compare) and isinstance(c.ops[0], ast.NotEq) and "registry_key" in ast.unparse(c):
+                    if any(isinstance(x, ast.Delete) or (isinstance(x, ast.Call) and getattr(x.func, "attr", "") == "pop") for x in ast.walk(n)):
+                        skips = True
+    emit("/-- dictionary.py Dictionary._add_to_cache evicts the oldest key *other than* the current settings key -/\ndef evictSkipsCurrent : Bool := " + lbool(skips))
     for nm, var in [("reParentheses", "PARENTHESES_PATTERN"), ("reNumeral", "NUMERAL_PATTERN"), ("reKeepToken", "KEEP_TOKEN_PATTERN")]:
         RX(nm, regex_of(dd.assign(var)), "dictionary.py " + var)
 
